@@ -4,6 +4,7 @@ import Pfl.Model.Regex
 import Pfl.Model.ToRegex
 import Pfl.Model.RegexToCFG
 import Pfl.Model.PyRegex
+import Pfl.Model.PyRender
 import Pfl.Model.PyRegexPasses
 import PflDrv.CFG
 open Lean Pfl
@@ -129,7 +130,7 @@ def rxHandle (op : String) (j : Json) : R Json := do
     let u ← asStr (← field j "universe")
     let ss ← asStrList (← field j "strings")
     let t := PyRx.desugar u.toList p
-    pure (Json.mkObj [("tree", jRx t),
+    pure (Json.mkObj [("tree", jRx t), ("text", jStr (String.ofList (PyRx.render p .top))),
       ("matches", jList (fun (x : String) => jBool (t.matches (x.toList.map String.singleton))) ss)])
   | "rx.toCFG" =>   -- model of Regex.to_cfg
     let t ← asRx (← field j "tree")
